@@ -38,7 +38,7 @@ func frontDriver(seed uint64, n int, outV, outJSON string, args []string) {
 	only := "c01"
 	for _, a := range args {
 		a = strings.ToLower(strings.TrimPrefix(a, "-"))
-		if a == "c01" || a == "c02" || a == "c18" {
+		if a == "c01" || a == "c02" || a == "c18" || a == "c17" {
 			only = a
 		}
 	}
@@ -65,6 +65,9 @@ func frontDriver(seed uint64, n int, outV, outJSON string, args []string) {
 			}
 		}
 		runC02(e, n)
+	case "c17":
+		e.rep.Rule = "a real disk cache of 10 blocks with max_size_hard_limit in {max_size, +1 block, +2 blocks, off}, the background remover parked at its yield point; the cache is filled and pushed until currentSize + deletion backlog reaches the limit; then every write path (HTTP PUT cas plain/zstd and ac, BatchUpdateBlobs identity/zstd/3 entries, ByteStream.Write blobs and compressed-blobs in one and several messages, UpdateActionResult with and without inlined blobs, SpliceBlob, FetchBlob) must answer the retryable class and change nothing; reads of indexed entries through every read path must succeed; after the remover deleted the backlog the same uploads must be admitted; with the limit off nothing is refused; non-trivial = every case; distinct = distinct (path, phase, limit, outcome)"
+		runC17(e, n)
 	case "c18":
 		e.rep.Rule = "max_blob_size L in {1000,4096,66000} wired as main.go does (disk layer, HTTP handler, gRPC server) x storage mode; well-formed blobs of logical size L-1, L, L+1, 2L+5 (compressible, so the zstd wire form of an oversize blob is far below L) through every write path, plus GetCapabilities; non-trivial = size > L-1; distinct = distinct (path, size relative to L, L, mode, outcome)"
 		i := 0
